@@ -884,6 +884,14 @@ def _tarExtractFilter(member, path):
     if os.path.commonpath([full_name, path]) != path:
         raise BuildError(f"Refusing to extract '{name}' from tar file. File is outside of destination directory.")
 
+    # Hard links must not refer to files outside of the destination either.
+    # They would make the outside file part of the extracted tree so that it
+    # can be modified by later members of the archive.
+    if member.islnk():
+        target = os.path.realpath(os.path.join(path, member.linkname))
+        if os.path.commonpath([target, path]) != path:
+            raise BuildError(f"Refusing to extract hard link '{name}' from tar file. Target '{member.linkname}' is outside of destination directory.")
+
     return member
 
 def tarfileOpen(*args, **kwargs):
